@@ -212,6 +212,33 @@ __CPROVER_ensures(item->type == item_type_none ==> (xv_dg_updates == __CPROVER_o
 __CPROVER_ensures(xv_dg_updates >= __CPROVER_old(xv_dg_updates) && XV_LIVE_OK(xv_dg_updates) && XV_LIVE_OK(xv_stat_calls) && XV_LIVE_OK(xv_lstat_calls) && xv_dg_len <= XV_DG_MAX)
 ;
 
+
+/* get_credentials_hash: the digest of the CURRENT designation of the four items (cut point of ctx_store_get_ctx; enforced
+ * in job locks.get_credentials_hash over the EVP stubs, whose ghost record it restates): on success hash[0..31] is the new
+ * digest xv_md_last, the previous one moved to xv_md_prev; from call number xv_md_settle on the digest repeats its
+ * predecessor (bound of the retry loop); the record of loads made since the previous digest is closed (xv_ldb_*).
+ * No EVP_MD_CTX is leaked on either path; errno is not touched. */
+#define XV_GCH_ITEM(i) (__CPROVER_r_ok((i), sizeof(struct item)) && ITEM_TYPE_OK(i) && ((i)->type != item_type_none ==> __CPROVER_r_ok((i)->data, 1)))
+#define XV_O4(a, b, i) ((a)[(i)] == __CPROVER_old((b)[(i)]) && (a)[(i) + 1] == __CPROVER_old((b)[(i) + 1]) && (a)[(i) + 2] == __CPROVER_old((b)[(i) + 2]) && (a)[(i) + 3] == __CPROVER_old((b)[(i) + 3]))
+#define HASH_IS_OLD(a, b) (XV_O4(a, b, 0) && XV_O4(a, b, 4) && XV_O4(a, b, 8) && XV_O4(a, b, 12) && XV_O4(a, b, 16) && XV_O4(a, b, 20) && XV_O4(a, b, 24) && XV_O4(a, b, 28))
+#define XV_MD_ASSIGNS xv_md_calls, __CPROVER_object_whole(xv_md_last), __CPROVER_object_whole(xv_md_prev), xv_ld_since_md, xv_ld_between, __CPROVER_object_whole(xv_ldb_res)
+static int get_credentials_hash(const struct item *cert, const struct item *key, const struct item *tc, const struct item *crl, uint8_t *hash, void *log_ref)
+__CPROVER_requires(XV_GCH_ITEM(cert) && XV_GCH_ITEM(key) && XV_GCH_ITEM(tc) && XV_GCH_ITEM(crl) && __CPROVER_w_ok(hash, 32))
+__CPROVER_requires(XV_LIVE_OK(xv_mdctx_live) && XV_LIVE_OK(xv_md_calls) && XV_LIVE_OK(xv_dg_updates) && XV_LIVE_OK(xv_stat_calls) && XV_LIVE_OK(xv_lstat_calls) && xv_dg_len <= XV_DG_MAX)
+__CPROVER_assigns(__CPROVER_object_upto(hash, 32), XV_MD_ASSIGNS, XV_DG_ASSIGNS)
+__CPROVER_ensures(__CPROVER_return_value == 0 || __CPROVER_return_value == -1)
+/* PO[C08] get_credentials_hash.no_digest_context_leaked */
+__CPROVER_ensures(xv_mdctx_live == __CPROVER_old(xv_mdctx_live))
+__CPROVER_ensures(__CPROVER_return_value == 0 ==> (xv_md_calls == __CPROVER_old(xv_md_calls) + 1 && HASH_SAME(hash, xv_md_last) && HASH_IS_OLD(xv_md_prev, xv_md_last)))
+__CPROVER_ensures((__CPROVER_return_value == 0 && __CPROVER_old(xv_md_calls) >= xv_md_settle) ==> HASH_SAME(xv_md_last, xv_md_prev))
+__CPROVER_ensures(__CPROVER_return_value == 0 ==> (xv_ld_since_md == 0 && xv_ld_between == __CPROVER_old(xv_ld_since_md) && \
+                  xv_ldb_res[0] == __CPROVER_old(xv_ld_res[0]) && xv_ldb_res[1] == __CPROVER_old(xv_ld_res[1]) && xv_ldb_res[2] == __CPROVER_old(xv_ld_res[2]) && xv_ldb_res[3] == __CPROVER_old(xv_ld_res[3])))
+__CPROVER_ensures(__CPROVER_return_value == -1 ==> (xv_md_calls == __CPROVER_old(xv_md_calls) && xv_ld_since_md == __CPROVER_old(xv_ld_since_md)))
+/* PO[C18] get_credentials_hash.fails_only_if_a_designated_file_cannot_be_examined */
+__CPROVER_ensures(__CPROVER_return_value == -1 ==> (cert->type == item_type_file || key->type == item_type_file || tc->type == item_type_file || crl->type == item_type_file))
+__CPROVER_ensures(XV_LIVE_OK(xv_dg_updates) && XV_LIVE_OK(xv_stat_calls) && XV_LIVE_OK(xv_lstat_calls) && xv_dg_len <= XV_DG_MAX)
+;
+
 /* load_ssl_ctx: C18 "unreadable, malformed or mismatching material fails with EPROTO"; C08 no SSL_CTX is leaked on the
  * error ladder.  requires: certificate and key data are present (install_cert/install_key take strlen() of them). */
 static SSL_CTX *load_ssl_ctx(const char *cert_data, const char *key_data, const char *tc_data, const char *crl_data, uint8_t *hash, void *log_ref)
@@ -238,6 +265,9 @@ XV_LSC_ENSURES
  * C08: exactly one more user on a hit / exactly one new entry with one user on a miss; on failure the cache is as found
  *      and no heap block, SSL_CTX or EVP_MD_CTX of this call survives.
  * requires: certificate and key are designated (btls finalize_tls_conf always sets them). */
+#ifndef XV_MD_FRESH
+#define XV_MD_FRESH 3   /* digests of one call that may differ from their predecessor: bounds the retry loop (job parameter) */
+#endif
 #define XV_ITEM_FRESH(i) (__CPROVER_is_fresh((i), sizeof(struct item)))
 #define XV_ITEM_DATA(i) (ITEM_TYPE_OK(i) && ((i)->type != item_type_none ==> __CPROVER_is_fresh((i)->data, XV_VAL)) && ((i)->type != item_type_none ==> (i)->data[XV_VAL - 1] == 0))
 #define XV_ISSET(i) ((i)->type != item_type_none ? 1 : 0)
@@ -250,10 +280,9 @@ __CPROVER_requires(XV_ITEM_DATA(cert) && XV_ITEM_DATA(key) && XV_ITEM_DATA(tc) &
 __CPROVER_requires(!xv_lk_held && XV_LK_CNT_OK && cache.entries.lh_first == xv_cs_shadow && xv_cachep == &cache && xv_hj < 32)
 __CPROVER_requires(XV_LIVE_OK(xv_heap_live) && XV_LIVE_OK(xv_ctx_live) && XV_LIVE_OK(xv_ctxfree_calls) && xv_ctx_dead == NULL && XV_LIVE_OK(xv_mdctx_live) && XV_LIVE_OK(xv_md_calls) && \
                    XV_LIVE_OK(xv_ld_calls) && XV_LIVE_OK(xv_dg_updates) && XV_LIVE_OK(xv_stat_calls) && XV_LIVE_OK(xv_lstat_calls) && xv_dg_len <= XV_DG_MAX && XV_LSC_GHOST_OK && \
-                   xv_ld_since_md >= 0 && xv_ld_since_md < 1000 && xv_md_settle == xv_md_calls + 3 && xv_snprintf_calls >= 0 && xv_snprintf_calls < 1000000)
+                   xv_ld_since_md >= 0 && xv_ld_since_md < 1000 && xv_md_settle == xv_md_calls + XV_MD_FRESH && xv_snprintf_calls >= 0 && xv_snprintf_calls < 1000000)
 __CPROVER_assigns(XV_LK_ASSIGNS, XV_CS_ASSIGNS, xv_errno, xv_heap_live, xv_ctx_live, xv_ctxfree_calls, xv_ctxfree_last, xv_ctx_dead, XV_LSC_ASSIGNS, XV_DG_ASSIGNS, \
-                  xv_mdctx_live, xv_md_calls, __CPROVER_object_whole(xv_md_last), __CPROVER_object_whole(xv_md_prev), xv_ld_calls, xv_ld_since_md, xv_ld_between, \
-                  __CPROVER_object_whole(xv_ld_res), __CPROVER_object_whole(xv_ldb_res), xv_snprintf_ret, xv_snprintf_cap, xv_snprintf_calls)
+                  xv_mdctx_live, XV_MD_ASSIGNS, xv_ld_calls, __CPROVER_object_whole(xv_ld_res), xv_snprintf_ret, xv_snprintf_cap, xv_snprintf_calls)
 /* PO[C15] ctx_store_get_ctx.lock_taken_once_and_released_on_every_exit_path */
 __CPROVER_ensures(XV_LOCK_ONCE)
 /* PO[C15] ctx_store_get_ctx.list_head_not_written_after_release */
